@@ -879,7 +879,11 @@ fn gen_op(r: &mut Prng, w: &World, s: &Snap, m: &mut GenMem) -> IOp {
             if r.chance(25) {
                 // a direct call from somebody who is not the address manager
                 let from = if r.chance(70) { user(r) } else { *r.pick(&[0u64, 1, 4, 5]) };
-                return IOp::Exec4 { from, sub: r.bytes(20), code: Type::EVM as i32, ic: Some(gen_icode(r, 1)), variant: 0 };
+                return match r.below(3) {
+                    0 => IOp::Exec4 { from, sub: r.bytes(20), code: Type::EVM as i32, ic: Some(gen_icode(r, 1)), variant: 0 },
+                    1 => IOp::Exec4 { from, sub: r.bytes(20), code: Type::Multisig as i32, ic: None, variant: 0 },
+                    _ => IOp::Exec4 { from, sub: r.bytes(20), code: Type::PaymentChannel as i32, ic: None, variant: 0 },
+                };
             }
             let nonres = |r: &mut Prng| loop { let b = r.bytes(20); if !is_reserved(&b) { return b } };
             let (sub, code, ic): (Vec<u8>, i32, Option<ICode>) = match r.below(100) {
